@@ -159,6 +159,8 @@ register(PropertySpec(
              "reachable (the hook raises), through helper calls too"),
         Rule("MODE-BRANCH", modes.rule_mode_branch, 4,
              "hybrid_new and the @predicate wrapper under each constant mode reach only their own arm"),
+        Rule("EVAL-NO-CONTEXT", _lazy("modes", "rule_eval_no_context"), 1,
+             "the mode-off switch of an evaluation also sets the expression context (open `with <query>` blocks) aside, so user code that builds a query during evaluation is not bound to the enclosing block's query"),
     ],
     explanation="The mode is a context variable with a closed set of writers, so confinement is a pairing property over "
                 "all exits of the code that writes it. Decided on the CFG with exceptional and generator-suspension "
@@ -185,6 +187,8 @@ register(PropertySpec(
              "comparison operator) are reachable only through the evaluation protocol, hence only under the entries"),
         Rule("MODE-BRANCH", _lazy("modes", "rule_mode_branch"), 4,
              "(shared with C08) with symbolic mode off the @predicate wrapper and @symbol constructor take the concrete arm, whatever else is active"),
+        Rule("EVAL-NO-CONTEXT", _lazy("modes", "rule_eval_no_context"), 1,
+             "the mode-off switch of an evaluation also sets the expression context (open `with <query>` blocks) aside, so user code that builds a query during evaluation is not bound to the enclosing block's query"),
     ],
     explanation="User predicates and @symbol constructors consult the ambient mode; the result is mode-independent iff "
                 "every public entry switches the mode off around every point at which evaluation runs. That is a "
@@ -248,6 +252,8 @@ register(PropertySpec(
              "an iteration over a lazily consumed domain does not delegate to the shared one-shot source (closing the iteration would close the source)"),
         Rule("QUERY-FRESH-STATE", _lazy("history", "rule_query_fresh_state"), 2,
              "every evaluation of a quantified query (nested, selected, used as a domain) starts by resetting the duplicate-suppression state below it"),
+        Rule("REG-LIVE", _lazy("registry", "rule_reg_live"), 5,
+             "the registry-backed domain of a variable does not survive from one evaluation to the next"),
     ],
     explanation="History independence is absence of residue on the shared expression nodes. Decided: where residue is "
                 "written (discovered mechanically from dataclass fields and mutation sites reachable from evaluation "
@@ -598,6 +604,10 @@ register(PropertySpec(
              "only the confirmed builders hand a supplied domain to a Variable; anywhere else the domain is filtered by the variable's type first"),
         Rule("EVAL-STATE-RESET", _lazy("history", "rule_eval_state_reset"), 5,
              "per-evaluation state (e.g. 'this selected variable is inferred') is reset by the end-of-evaluation reset on every exit, so later queries range over the registry again"),
+        Rule("REG-LIVE", _lazy("registry", "rule_reg_live"), 5,
+             "a variable without a domain ranges over the registry as it is when it is evaluated: nothing is read at declaration, and a registry-backed domain is dropped by the per-evaluation reset (which reaches selected-only variables)"),
+        Rule("REG-NO-PROBE", _lazy("registry", "rule_reg_no_probe"), 1,
+             "registration does not look attributes up on the instance before its __init__ has run"),
     ],
     explanation="Registry discipline is ownership: a single writer, on a must-pass-through path of the concrete "
                 "constructor arm, keyed by the runtime class; the symbolic arm provably (call-graph closure) cannot "
